@@ -56,15 +56,21 @@ def pairs(n, m):
     """constructed positive (a,b,family) with a of ~n limbs and b of ~m limbs (m<=n)"""
     out = []
     gl = max(1, m // 3)
-    for gi, g in enumerate((1, al.ones(gl), (1 << (64 * gl - 1)) + 1, dense(gl) | 1, 3 << (64 * (gl - 1)))):
-        xl = 64 * (n - (gl if g > 1 else 0))
-        yl = 64 * (m - (gl if g > 1 else 0))
+    # common factors: none, all ones, top+bottom bit, dense, 3*B^k, and multi-limb factors whose LOW limb alone is 1 (or 3): a test
+    # of the form "low limb == 1" must not take them for a trivial gcd
+    for gi, g in enumerate((1, al.ones(gl), (1 << (64 * gl - 1)) + 1, dense(gl) | 1, 3 << (64 * (gl - 1)),
+                            (1 << (64 * gl)) + 1, (3 << 64) + 1 if m >= 4 else 1, ((dense(gl) | 1) << 64) + 1, (1 << (64 * gl)) + 3)):
+        if gi >= 5 and (g == 1 or al.nl(g) >= m):
+            continue
+        gll = al.nl(g) if g > 1 else 0
+        xl = 64 * (n - gll)
+        yl = 64 * (m - gll)
         if yl <= 0 or xl <= 0:
             continue
         if n == m or n == m + 1:
             fx, fy = fib_bits(yl - 1)
             out.append((g * fx, g * fy, "fib%d" % gi))
-        if gi < 2:
+        if gi < 2 or gi >= 5:
             x, y = dense(xl // 64, 1) | 1, dense(yl // 64, 2) | 1
             out.append((g * x, g * y, "dense%d" % gi))
             q = al.ones(max(1, (xl - yl) // 64)) if xl > yl else 1
